@@ -14,7 +14,7 @@ RULE = ('each run = 1..3 caller threads, each running its own SimLoop, calling e
         'future or task that returns or raises after a delay from a grid; _CROSS_LOOP_POOL is a SimPool(32); one seeded schedule '
         'with pre-emption at every line of aiuti/asyncio.py. Oracles: result/exception object identity; the awaitable observes the '
         'target as its running loop; SimLoop never sees a second thread enter run_forever; loop_in_thread returns only while '
-        'is_running() and its stopper returns only when not; closed target -> RuntimeError; quiescence with an ensure_aw caller '
+        'is_running() and its stopper returns only when not (in a third of the runs that end on a running target the stop function is called by two threads at once; sometimes a second phase reuses the same target loop in the other state); closed target -> RuntimeError; quiescence with an ensure_aw caller '
         'pending = hang. non-trivial = >=1 cross-thread switch inside traced code; distinct by run digest.')
 LEVEL_TEXT = ('Seeded search over target states, awaitable kinds/delays and line-level interleavings of the caller threads with the '
               'helper threads that run borrowed loops; completion is decided by the scheduler\'s quiescence detector, exclusivity by '
